@@ -905,6 +905,44 @@ def inlined_away(repo, fi):
     return fi.name not in memo
 
 
+def rule_flag_defaults(ctx, repo, rid, need_empty):
+    """the verification-flag parameters default to an (empty) collection: the interpreter only ever asks `X in flags`, so a
+    default that is not a collection (None, 0) raises TypeError at the first flag test of every caller that omits the
+    argument; a non-empty default switches optional rules on for them"""
+    from .model import UNKNOWN
+    r = ctx.rule(rid, 'default of the verification flags: a collection%s (the interpreter asks `X in flags`)' % (', and an empty one' if need_empty else ''), engine='CONST', floor=3)
+    for q in ('bitcoin.core.scripteval.EvalScript', 'bitcoin.core.scripteval._EvalScript', 'bitcoin.core.scripteval.VerifyScript'):
+        fi = repo.functions.get(q)
+        key = 'default:%s:flags' % q.rsplit('.', 1)[-1]
+        if fi is None or 'flags' not in fi.params:
+            r.undecided(key, fi.site if fi else '', 'no parameter `flags`')
+            continue
+        d = fi.defaults().get('flags')
+        if d is None:
+            r.ok(key, fi.site, 'no default: every caller passes the flags')
+            continue
+        v = repo.fold(d, fi.module, cls=fi.cls)
+        txt = ast.unparse(d)
+        if v is UNKNOWN and txt in ('frozenset()', 'set()', 'tuple()', 'list()', 'dict()'):
+            v = ()
+        if v is UNKNOWN:
+            r.undecided(key, fi.site, 'the default `%s` does not fold to a constant' % txt[:40])
+        elif isinstance(v, (tuple, list, set, frozenset, dict)):
+            if len(v) == 0 or not need_empty:
+                r.ok(key, fi.site, 'flags=%s' % txt)
+                ctx.explain(fi, fi.node, '%s: `%s` is a%s collection' % (rid, txt, 'n empty' if len(v) == 0 else ''), part='default:flags')
+            else:
+                r.violated(key, fi.site, '%s: the default flag set is `%s`: a caller that passes no flags gets optional verification rules switched on, and scripts the consensus rules accept are refused'
+                           % (fi.name, txt), sure=True)
+        elif isinstance(v, (str, bytes)):
+            r.undecided(key, fi.site, 'the default `%s` is a string' % txt[:40])
+        elif any(isinstance(n, ast.Name) and n.id == 'flags' and isinstance(n.ctx, ast.Store) for n in ast.walk(fi.node)):
+            r.undecided(key, fi.site, 'the default `%s` is not a collection, and %s rebinds `flags` before using it: what it uses instead was not decided' % (txt[:40], fi.name))
+        else:
+            r.violated(key, fi.site, '%s: the default of `flags` is `%s`, which is not a collection: the first `X in flags` of a call without flags raises TypeError, an exception outside the validation-error family'
+                       % (fi.name, txt), sure=True)
+
+
 def rule_defaults(rule, repo, items):
     """items: [(qualname, parameter, expected value, what a caller relying on the default gets otherwise)].  A default is
     part of the function's behaviour for every caller that omits the argument."""
